@@ -1,8 +1,1247 @@
 import FsModel.Tree
 import FsModel.Ref
 import FsModel.RefAdm
+import FsProofs.Lemmas.PathLemmas
 
 namespace Fs.TreeLemmas
 open Fs Fs.Ref
+
+/-! ### entry lists -/
+
+theorem lookup_put_same (c : Name) (n : Node) (es : Ents) :
+    Ents.lookup c (Ents.put c n es) = some n := by
+  induction es with
+  | nil => simp [Ents.put, Ents.lookup]
+  | cons e es ih =>
+    obtain ⟨k, v⟩ := e
+    by_cases h : k = c <;> simp [Ents.put, Ents.lookup, h, ih]
+
+theorem lookup_put_other (c k : Name) (n : Node) (es : Ents) (h : k ≠ c) :
+    Ents.lookup k (Ents.put c n es) = Ents.lookup k es := by
+  induction es with
+  | nil => simp [Ents.put, Ents.lookup, Ne.symm h]
+  | cons e es ih =>
+    obtain ⟨k', v⟩ := e
+    by_cases h' : k' = c
+    · subst h'
+      simp [Ents.put, Ents.lookup, Ne.symm h]
+    · by_cases h'' : k' = k
+      · subst h''
+        simp [Ents.put, Ents.lookup, h']
+      · simp [Ents.put, Ents.lookup, h', h'', ih]
+
+theorem lookup_erase_other (c k : Name) (es : Ents) (h : k ≠ c) :
+    Ents.lookup k (Ents.erase c es) = Ents.lookup k es := by
+  induction es with
+  | nil => simp [Ents.erase]
+  | cons e es ih =>
+    obtain ⟨k', v⟩ := e
+    by_cases h' : k' = c
+    · subst h'
+      simp [Ents.erase, Ents.lookup, Ne.symm h]
+    · by_cases h'' : k' = k
+      · subst h''
+        simp [Ents.erase, Ents.lookup, h']
+      · simp [Ents.erase, Ents.lookup, h', h'', ih]
+
+theorem put_lookup_self (c : Name) (n : Node) (es : Ents) (h : Ents.lookup c es = some n) :
+    Ents.put c n es = es := by
+  induction es with
+  | nil => simp [Ents.lookup] at h
+  | cons e es ih =>
+    obtain ⟨k, v⟩ := e
+    by_cases h' : k = c
+    · simp [Ents.lookup, h'] at h
+      simp [Ents.put, h', h]
+    · simp [Ents.lookup, h'] at h
+      simp [Ents.put, h', ih h]
+
+theorem lookup_erase_same (c : Name) (es : Ents) (h : entsWf es = true) :
+    Ents.lookup c (Ents.erase c es) = none := by
+  induction es with
+  | nil => simp [Ents.erase, Ents.lookup]
+  | cons e es ih =>
+    obtain ⟨k, v⟩ := e
+    simp only [entsWf, Bool.and_eq_true] at h
+    by_cases h' : k = c
+    · subst h'
+      simpa [Ents.erase] using h.1.1.2
+    · simp [Ents.erase, Ents.lookup, h', ih h.2]
+
+theorem lookup_wf (c : Name) (n : Node) (es : Ents) (h : entsWf es = true)
+    (hl : Ents.lookup c es = some n) : n.wf = true := by
+  induction es with
+  | nil => simp [Ents.lookup] at hl
+  | cons e es ih =>
+    obtain ⟨k, v⟩ := e
+    simp only [entsWf, Bool.and_eq_true] at h
+    by_cases h' : k = c
+    · simp [Ents.lookup, h'] at hl
+      subst hl
+      exact h.1.2
+    · simp [Ents.lookup, h'] at hl
+      exact ih h.2 hl
+
+theorem entsWf_put (c : Name) (n : Node) (es : Ents) (hc : cleanName c = true) (hn : n.wf = true)
+    (h : entsWf es = true) : entsWf (Ents.put c n es) = true := by
+  induction es with
+  | nil => simp [Ents.put, entsWf, hc, hn, Ents.lookup]
+  | cons e es ih =>
+    obtain ⟨k, v⟩ := e
+    simp only [entsWf, Bool.and_eq_true] at h
+    by_cases h' : k = c
+    · simp [Ents.put, h', entsWf, hn, h.2]
+      subst h'
+      exact ⟨h.1.1.1, by simpa using h.1.1.2⟩
+    · simp only [Ents.put, h', if_false, entsWf, Bool.and_eq_true]
+      rw [lookup_put_other _ _ _ _ h']
+      exact ⟨⟨h.1.1, h.1.2⟩, ih h.2⟩
+
+theorem entsWf_erase (c : Name) (es : Ents) (h : entsWf es = true) :
+    entsWf (Ents.erase c es) = true := by
+  induction es with
+  | nil => simp [Ents.erase, entsWf]
+  | cons e es ih =>
+    obtain ⟨k, v⟩ := e
+    simp only [entsWf, Bool.and_eq_true] at h
+    by_cases h' : k = c
+    · simp [Ents.erase, h', h.2]
+    · simp only [Ents.erase, h', if_false, entsWf, Bool.and_eq_true]
+      rw [lookup_erase_other _ _ _ h']
+      exact ⟨⟨h.1.1, h.1.2⟩, ih h.2⟩
+
+/-! ### get / set / del -/
+
+theorem get_append (p r : List Name) (t : Node) :
+    t.get (p ++ r) = (t.get p).bind (Node.get r) := by
+  induction p generalizing t with
+  | nil => simp [Node.get]
+  | cons c p ih =>
+    cases t with
+    | file b => simp [Node.get]
+    | dir es =>
+      simp only [List.cons_append, Node.get]
+      cases Ents.lookup c es with
+      | none => simp
+      | some ch => simp [ih]
+
+theorem get_cons_file (c : Name) (cs : List Name) (b : Bytes) : (Node.file b).get (c :: cs) = none := by
+  simp [Node.get]
+
+theorem get_wf (p : List Name) (t n : Node) (h : t.wf = true) (hg : t.get p = some n) :
+    n.wf = true := by
+  induction p generalizing t with
+  | nil => simp [Node.get] at hg; subst hg; exact h
+  | cons c p ih =>
+    cases t with
+    | file b => simp [Node.get] at hg
+    | dir es =>
+      simp only [Node.get] at hg
+      cases hl : Ents.lookup c es with
+      | none => simp [hl] at hg
+      | some ch =>
+        rw [hl] at hg
+        exact ih ch (lookup_wf _ _ _ (by simpa [Node.wf] using h) hl) hg
+
+/-- a proper prefix of an existing path is a directory -/
+theorem get_prefix_dir (p : List Name) (c : Name) (r : List Name) (t n : Node)
+    (h : t.get (p ++ c :: r) = some n) : ∃ es, t.get p = some (.dir es) := by
+  rw [get_append] at h
+  cases hp : t.get p with
+  | none => simp [hp] at h
+  | some x =>
+    cases x with
+    | file b => simp [hp, Node.get] at h
+    | dir es => exact ⟨es, rfl⟩
+
+theorem get_prefix_some (p r : List Name) (t n : Node)
+    (h : t.get (p ++ r) = some n) : ∃ x, t.get p = some x := by
+  rw [get_append] at h
+  cases hp : t.get p with
+  | none => simp [hp] at h
+  | some x => exact ⟨x, rfl⟩
+
+theorem prefix_ne_split {a q : List Name} (h : a <+: q) (hne : a ≠ q) :
+    ∃ c r, q = a ++ c :: r := by
+  obtain ⟨r, rfl⟩ := h
+  cases r with
+  | nil => simp at hne
+  | cons c r => exact ⟨c, r, rfl⟩
+
+theorem get_proper_prefix_dir {a q : List Name} {t n : Node} (h : a <+: q) (hne : a ≠ q)
+    (hq : t.get q = some n) : ∃ es, t.get a = some (.dir es) := by
+  obtain ⟨c, r, rfl⟩ := prefix_ne_split h hne
+  exact get_prefix_dir _ _ _ _ _ hq
+
+theorem get_prefix_exists {a q : List Name} {t n : Node} (h : a <+: q)
+    (hq : t.get q = some n) : ∃ x, t.get a = some x := by
+  obtain ⟨r, rfl⟩ := h
+  exact get_prefix_some _ _ _ _ hq
+
+theorem get_parent_dir {cs : List Name} {t n : Node} (hne : cs ≠ []) (h : t.get cs = some n) :
+    ∃ es, t.get cs.dropLast = some (.dir es) := by
+  have : cs = cs.dropLast ++ [cs.getLast hne] := (List.dropLast_concat_getLast hne).symm
+  rw [this] at h
+  exact get_prefix_dir _ _ _ _ _ h
+
+theorem isDir_set (cs : List Name) (t v : Node) : (t.set cs v).isDir = t.isDir := by
+  fun_induction Node.set cs t v <;> simp [Node.isDir]
+
+theorem isDir_del (cs : List Name) (t : Node) : (t.del cs).isDir = t.isDir := by
+  fun_induction Node.del cs t <;> simp [Node.isDir]
+
+theorem set_wf (cs : List Name) (t v : Node) (hc : ∀ c ∈ cs, cleanName c = true)
+    (hv : v.wf = true) (ht : t.wf = true) : (t.set cs v).wf = true := by
+  fun_induction Node.set cs t v with
+  | case1 n v => exact ht
+  | case2 c es v =>
+    simp only [Node.wf] at ht ⊢
+    exact entsWf_put _ _ _ (hc c (by simp)) hv ht
+  | case3 c d cs es v ch hl ih =>
+    simp only [Node.wf] at ht ⊢
+    refine entsWf_put _ _ _ (hc c (by simp)) (ih ?_ hv (lookup_wf _ _ _ ht hl)) ht
+    intro x hx
+    exact hc x (List.mem_cons_of_mem _ hx)
+  | case4 c d cs es v hl => exact ht
+  | case5 c cs b v => exact ht
+
+theorem del_wf (cs : List Name) (t : Node) (ht : t.wf = true) : (t.del cs).wf = true := by
+  fun_induction Node.del cs t with
+  | case1 n => exact ht
+  | case2 c es =>
+    simp only [Node.wf] at ht ⊢
+    exact entsWf_erase _ _ ht
+  | case3 c d cs es ch hl ih =>
+    simp only [Node.wf] at ht ⊢
+    have hch := lookup_wf _ _ _ ht hl
+    -- the name already exists, so `put` keeps the (clean) key
+    have hput : ∀ (es : Ents) (n : Node), entsWf es = true → n.wf = true →
+        (Ents.lookup c es).isSome = true → entsWf (Ents.put c n es) = true := by
+      intro es n
+      induction es with
+      | nil => intro _ _ h; simp [Ents.lookup] at h
+      | cons e es ih' =>
+        obtain ⟨k, v⟩ := e
+        intro hw hn hs
+        simp only [entsWf, Bool.and_eq_true] at hw
+        by_cases h' : k = c
+        · simp only [Ents.put, h', if_true, entsWf, Bool.and_eq_true]
+          subst h'
+          exact ⟨⟨⟨hw.1.1.1, hw.1.1.2⟩, hn⟩, hw.2⟩
+        · simp only [Ents.put, h', if_false, entsWf, Bool.and_eq_true]
+          rw [lookup_put_other _ _ _ _ h']
+          simp only [Ents.lookup, h', if_false] at hs
+          exact ⟨⟨hw.1.1, hw.1.2⟩, ih' hw.2 hn hs⟩
+    exact hput es _ ht (ih hch) (by simp [hl])
+  | case4 c d cs es hl => exact ht
+  | case5 c cs b => exact ht
+
+/-- FRAME for `set`: a file that is not at or below the written path is kept -/
+theorem get_set_file (cs q : List Name) (t v : Node) (b : Bytes)
+    (hq : t.get q = some (.file b)) (hn : ¬ cs <+: q) :
+    (t.set cs v).get q = some (.file b) := by
+  fun_induction Node.set cs t v generalizing q with
+  | case1 n v => exact absurd (List.nil_prefix) hn
+  | case2 c es v =>
+    cases q with
+    | nil => simp [Node.get] at hq
+    | cons c' qs =>
+      have hne : c' ≠ c := by
+        intro e; subst e
+        exact hn (List.cons_prefix_cons.2 ⟨rfl, List.nil_prefix⟩)
+      simp only [Node.get] at hq ⊢
+      rw [lookup_put_other _ _ _ _ hne]; exact hq
+  | case3 c d cs es v ch hl ih =>
+    cases q with
+    | nil => simp [Node.get] at hq
+    | cons c' qs =>
+      by_cases hne : c' = c
+      · subst hne
+        simp only [Node.get, hl] at hq
+        simp only [Node.get, lookup_put_same]
+        exact ih qs hq (fun h => hn (List.cons_prefix_cons.2 ⟨rfl, h⟩))
+      · simp only [Node.get] at hq ⊢
+        rw [lookup_put_other _ _ _ _ hne]; exact hq
+  | case4 c d cs es v hl => exact hq
+  | case5 c cs b v => exact hq
+
+/-- FRAME for `del` -/
+theorem get_del_file (cs q : List Name) (t : Node) (b : Bytes)
+    (hq : t.get q = some (.file b)) (hn : ¬ cs <+: q) :
+    (t.del cs).get q = some (.file b) := by
+  fun_induction Node.del cs t generalizing q with
+  | case1 n => exact absurd (List.nil_prefix) hn
+  | case2 c es =>
+    cases q with
+    | nil => simp [Node.get] at hq
+    | cons c' qs =>
+      have hne : c' ≠ c := by
+        intro e; subst e
+        exact hn (List.cons_prefix_cons.2 ⟨rfl, List.nil_prefix⟩)
+      simp only [Node.get] at hq ⊢
+      rw [lookup_erase_other _ _ _ hne]; exact hq
+  | case3 c d cs es ch hl ih =>
+    cases q with
+    | nil => simp [Node.get] at hq
+    | cons c' qs =>
+      by_cases hne : c' = c
+      · subst hne
+        simp only [Node.get, hl] at hq
+        simp only [Node.get, lookup_put_same]
+        exact ih qs hq (fun h => hn (List.cons_prefix_cons.2 ⟨rfl, h⟩))
+      · simp only [Node.get] at hq ⊢
+        rw [lookup_put_other _ _ _ _ hne]; exact hq
+  | case4 c d cs es hl => exact hq
+  | case5 c cs b => exact hq
+
+/-- what was written is what is read back (when the parent directory exists) -/
+theorem get_set_append (cs r : List Name) (t v : Node) (es : Ents) (hne : cs ≠ [])
+    (hp : t.get cs.dropLast = some (.dir es)) :
+    (t.set cs v).get (cs ++ r) = v.get r := by
+  fun_induction Node.set cs t v generalizing es with
+  | case1 n v => exact absurd rfl hne
+  | case2 c es' v => simp [Node.get, lookup_put_same]
+  | case3 c d cs es' v ch hl ih =>
+    rw [List.dropLast_cons_cons] at hp
+    simp only [Node.get, hl] at hp
+    simp only [List.cons_append, Node.get, lookup_put_same]
+    exact ih es (by simp) hp
+  | case4 c d cs es' v hl =>
+    rw [List.dropLast_cons_cons] at hp
+    simp [Node.get, hl] at hp
+  | case5 c cs b v =>
+    cases cs with
+    | nil => simp [Node.get] at hp
+    | cons d cs => rw [List.dropLast_cons_cons] at hp; simp [Node.get] at hp
+
+theorem get_set_same (cs : List Name) (t v : Node) (es : Ents) (hne : cs ≠ [])
+    (hp : t.get cs.dropLast = some (.dir es)) : (t.set cs v).get cs = some v := by
+  have := get_set_append cs [] t v es hne hp
+  simpa [Node.get] using this
+
+/-- nothing is left at or below a deleted path (unique names needed) -/
+theorem get_del_append (cs r : List Name) (t : Node) (hne : cs ≠ []) (hwf : t.wf = true) :
+    (t.del cs).get (cs ++ r) = none := by
+  fun_induction Node.del cs t with
+  | case1 n => exact absurd rfl hne
+  | case2 c es =>
+    simp only [Node.wf] at hwf
+    simp [Node.get, lookup_erase_same _ _ hwf]
+  | case3 c d cs es ch hl ih =>
+    simp only [Node.wf] at hwf
+    simp only [List.cons_append, Node.get, lookup_put_same]
+    exact ih (by simp) (lookup_wf _ _ _ hwf hl)
+  | case4 c d cs es hl => simp [Node.get, hl]
+  | case5 c cs b => simp [Node.get]
+
+theorem isPrefix_iff (a b : List Name) : isPrefix a b = true ↔ a <+: b := by
+  induction a generalizing b with
+  | nil => simp [isPrefix]
+  | cons x a ih =>
+    cases b with
+    | nil => simp [isPrefix]
+    | cons y b => simp [isPrefix, List.cons_prefix_cons, ih]
+
+/-! ### mkdirs -/
+
+theorem isDir_mkdirs (pre cs : List Name) (t : Node) : (mkdirs pre cs t).isDir = t.isDir := by
+  induction cs generalizing pre t with
+  | nil => simp [mkdirs]
+  | cons c cs ih =>
+    simp only [mkdirs]
+    rw [ih]
+    split <;> simp [isDir_set]
+
+theorem mkdirs_wf (pre cs : List Name) (t : Node) (hc : ∀ c ∈ pre ++ cs, cleanName c = true)
+    (ht : t.wf = true) : (mkdirs pre cs t).wf = true := by
+  induction cs generalizing pre t with
+  | nil => simpa [mkdirs] using ht
+  | cons c cs ih =>
+    simp only [mkdirs]
+    apply ih
+    · intro x hx; apply hc; simpa using hx
+    · split
+      · apply set_wf _ _ _ _ (by simp [Node.wf, entsWf]) ht
+        intro x hx; apply hc; simp at hx ⊢; rcases hx with h | h <;> simp [h]
+      · exact ht
+
+/-- `mkdirs` never disturbs a file -/
+theorem mkdirs_file (pre cs q : List Name) (t : Node) (b : Bytes)
+    (hq : t.get q = some (.file b)) : (mkdirs pre cs t).get q = some (.file b) := by
+  induction cs generalizing pre t with
+  | nil => simpa [mkdirs] using hq
+  | cons c cs ih =>
+    simp only [mkdirs]
+    apply ih
+    split
+    · next hnone =>
+      apply get_set_file _ _ _ _ _ hq
+      intro hp
+      obtain ⟨x, hx⟩ := get_prefix_exists hp hq
+      rw [hnone] at hx; cases hx
+    · exact hq
+
+theorem blocked_of_none (t : Node) (p cs : List Name) (h : t.get p = none) :
+    blockedByFile t p cs = false := by
+  induction cs generalizing p with
+  | nil => simp [blockedByFile]
+  | cons c cs ih =>
+    simp only [blockedByFile, h, Bool.false_or]
+    split
+    · rfl
+    · apply ih; rw [get_append, h]; rfl
+
+theorem blocked_of_empty_dir (t : Node) (p cs : List Name) (h : t.get p = some (.dir [])) :
+    blockedByFile t p cs = false := by
+  cases cs with
+  | nil => simp [blockedByFile]
+  | cons c cs =>
+    simp only [blockedByFile, h, Bool.false_or]
+    split
+    · rfl
+    · apply blocked_of_none; rw [get_append, h]; simp [Node.get, Ents.lookup]
+
+/-- after `mkdirs` the whole path is a directory, unless a file is in the way -/
+theorem mkdirs_get (pre cs : List Name) (t : Node) (es : Ents)
+    (h1 : t.get pre = some (.dir es)) (h2 : blockedByFile t pre cs = false)
+    (h3 : ∀ b, t.get (pre ++ cs) ≠ some (.file b)) :
+    ∃ es', (mkdirs pre cs t).get (pre ++ cs) = some (.dir es') := by
+  induction cs generalizing pre t es with
+  | nil => exact ⟨es, by simpa [mkdirs] using h1⟩
+  | cons c cs ih =>
+    simp only [mkdirs]
+    have e : pre ++ c :: cs = (pre ++ [c]) ++ cs := by simp
+    rw [e]
+    cases hh : t.get (pre ++ [c]) with
+    | none =>
+      simp only
+      have hd : (pre ++ [c]).dropLast = pre := by simp
+      have hs : (t.set (pre ++ [c]) (.dir [])).get (pre ++ [c]) = some (.dir []) :=
+        get_set_same _ _ _ es (by simp) (by rw [hd]; exact h1)
+      refine ih (pre ++ [c]) _ [] hs (blocked_of_empty_dir _ _ _ hs) ?_
+      intro b
+      rw [get_append, hs]
+      cases cs <;> simp [Node.get, Ents.lookup]
+    | some x =>
+      simp only
+      have hx : ∃ es', x = .dir es' := by
+        cases x with
+        | dir es' => exact ⟨es', rfl⟩
+        | file b =>
+          exfalso
+          cases cs with
+          | nil => exact h3 b (by simpa using hh)
+          | cons d cs =>
+            simp [blockedByFile, hh] at h2
+      obtain ⟨es', rfl⟩ := hx
+      refine ih (pre ++ [c]) t es' hh ?_ ?_
+      · cases cs with
+        | nil => simp [blockedByFile]
+        | cons d cs => simpa [blockedByFile, h1] using h2
+      · intro b; rw [← e]; exact h3 b
+
+/-! ### merge -/
+
+/-- names the source does not mention are kept -/
+theorem mergeEnts_keep (k : Name) (es ds m : Ents) (hk : Ents.lookup k es = none)
+    (hm : mergeEnts es ds = some m) : Ents.lookup k m = Ents.lookup k ds := by
+  induction es generalizing ds with
+  | nil => simp [mergeEnts] at hm; subst hm; rfl
+  | cons e es ih =>
+    obtain ⟨k', v⟩ := e
+    have hne : k' ≠ k := by
+      intro h; simp [Ents.lookup, h] at hk
+    simp only [Ents.lookup, hne, if_false] at hk
+    simp only [mergeEnts] at hm
+    cases hn : mergeNode v (Ents.lookup k' ds) with
+    | none => simp [hn] at hm
+    | some n =>
+      simp only [hn] at hm
+      rw [ih _ hk hm, lookup_put_other _ _ _ _ (Ne.symm hne)]
+
+mutual
+/-- every file of the source is, with its bytes, at the same relative path of the result -/
+theorem mergeNode_get : ∀ (v : Node) (o : Option Node) (n : Node) (r : List Name) (data : Bytes),
+    v.wf = true → mergeNode v o = some n → v.get r = some (.file data) →
+    n.get r = some (.file data)
+  | .file b, o, n, r, data, _, hm, hg => by
+    cases r with
+    | cons c r => simp [Node.get] at hg
+    | nil =>
+      simp only [Node.get, Option.some.injEq, Node.file.injEq] at hg
+      subst hg
+      cases o with
+      | none => simp [mergeNode] at hm; subst hm; rfl
+      | some d =>
+        cases d with
+        | file _ => simp [mergeNode] at hm; subst hm; rfl
+        | dir _ => simp [mergeNode] at hm
+  | .dir es, o, n, r, data, hw, hm, hg => by
+    simp only [Node.wf] at hw
+    cases o with
+    | none =>
+      simp only [mergeNode, Option.map_eq_some_iff] at hm
+      obtain ⟨m, hm, rfl⟩ := hm
+      exact mergeEnts_get es [] m r data hw hm hg
+    | some d =>
+      cases d with
+      | file _ => simp [mergeNode] at hm
+      | dir ds =>
+        simp only [mergeNode, Option.map_eq_some_iff] at hm
+        obtain ⟨m, hm, rfl⟩ := hm
+        exact mergeEnts_get es ds m r data hw hm hg
+theorem mergeEnts_get : ∀ (es ds m : Ents) (r : List Name) (data : Bytes),
+    entsWf es = true → mergeEnts es ds = some m → (Node.dir es).get r = some (.file data) →
+    (Node.dir m).get r = some (.file data)
+  | [], ds, m, r, data, _, _, hg => by
+    cases r <;> simp [Node.get, Ents.lookup] at hg
+  | (k, v) :: es, ds, m, r, data, hw, hm, hg => by
+    simp only [entsWf, Bool.and_eq_true] at hw
+    simp only [mergeEnts] at hm
+    cases hn : mergeNode v (Ents.lookup k ds) with
+    | none => simp [hn] at hm
+    | some n =>
+      simp only [hn] at hm
+      cases r with
+      | nil => simp [Node.get] at hg
+      | cons c r =>
+        by_cases hc : k = c
+        · subst hc
+          simp only [Node.get, Ents.lookup, if_true] at hg
+          have h1 := mergeNode_get v _ n r data hw.1.2 hn hg
+          have h2 := mergeEnts_keep k es _ m (by simpa using hw.1.1.2) hm
+          rw [lookup_put_same] at h2
+          simp only [Node.get, h2]
+          exact h1
+        · have hg' : (Node.dir es).get (c :: r) = some (.file data) := by
+            simpa [Node.get, Ents.lookup, hc] using hg
+          exact mergeEnts_get es _ m (c :: r) data hw.2 hm hg'
+end
+
+mutual
+theorem mergeNode_wf : ∀ (v : Node) (o : Option Node) (n : Node),
+    v.wf = true → (∀ x, o = some x → x.wf = true) → mergeNode v o = some n → n.wf = true
+  | .file b, o, n, _, _, hm => by
+    cases o with
+    | none => simp [mergeNode] at hm; subst hm; rfl
+    | some d =>
+      cases d with
+      | file _ => simp [mergeNode] at hm; subst hm; rfl
+      | dir _ => simp [mergeNode] at hm
+  | .dir es, o, n, hw, ho, hm => by
+    simp only [Node.wf] at hw
+    cases o with
+    | none =>
+      simp only [mergeNode, Option.map_eq_some_iff] at hm
+      obtain ⟨m, hm, rfl⟩ := hm
+      simp only [Node.wf]
+      exact mergeEnts_wf es [] m hw (by simp [entsWf]) hm
+    | some d =>
+      cases d with
+      | file _ => simp [mergeNode] at hm
+      | dir ds =>
+        simp only [mergeNode, Option.map_eq_some_iff] at hm
+        obtain ⟨m, hm, rfl⟩ := hm
+        have := ho _ rfl
+        simp only [Node.wf] at this ⊢
+        exact mergeEnts_wf es ds m hw this hm
+theorem mergeEnts_wf : ∀ (es ds m : Ents),
+    entsWf es = true → entsWf ds = true → mergeEnts es ds = some m → entsWf m = true
+  | [], ds, m, _, hd, hm => by
+    simp [mergeEnts] at hm; subst hm; exact hd
+  | (k, v) :: es, ds, m, hw, hd, hm => by
+    simp only [entsWf, Bool.and_eq_true] at hw
+    simp only [mergeEnts] at hm
+    cases hn : mergeNode v (Ents.lookup k ds) with
+    | none => simp [hn] at hm
+    | some n =>
+      simp only [hn] at hm
+      have hnw := mergeNode_wf v _ n hw.1.2 (fun x hx => lookup_wf _ _ _ hd hx) hn
+      exact mergeEnts_wf es _ m hw.2 (entsWf_put _ _ _ hw.1.1.1 hnw hd) hm
+end
+
+/-! ### validate: every component of a validated path is a legal name -/
+
+section Validate
+open Fs.Path Fs.PathSpec Fs.PathLemmas
+
+theorem mem_of_mem_splitOn (c : Char) (s : Str) : ∀ x ∈ splitOn c s, ∀ ch ∈ x, ch ∈ s := by
+  induction s with
+  | nil => simp [splitOn]
+  | cons y ys ih =>
+    by_cases hy : y = c
+    · subst hy
+      rw [splitOn_cons_sep]
+      intro x hx ch hch
+      simp only [List.mem_cons] at hx
+      rcases hx with rfl | hx
+      · simp at hch
+      · exact List.mem_cons_of_mem _ (ih x hx ch hch)
+    · rw [splitOn_cons_ne c y ys hy]
+      have hn := splitOn_ne_nil c ys
+      revert ih
+      generalize splitOn c ys = l at hn ⊢
+      cases l with
+      | nil => contradiction
+      | cons h t =>
+        intro ih x hx ch hch
+        simp only [List.headD_cons, List.tail_cons, List.mem_cons] at hx
+        rcases hx with rfl | hx
+        · simp only [List.mem_cons] at hch ⊢
+          rcases hch with rfl | hch
+          · exact Or.inl rfl
+          · exact Or.inr (ih h (by simp) ch hch)
+        · exact List.mem_cons_of_mem _ (ih x (by simp [hx]) ch hch)
+
+theorem foldl_step_mem (cs s r : List Str) (h : cs.foldl PathSpec.step (some s) = some r) :
+    ∀ x ∈ r, x ∈ s ∨ x ∈ cs := by
+  induction cs generalizing s with
+  | nil => simp at h; subst h; intro x hx; exact Or.inl hx
+  | cons c cs ih =>
+    rw [List.foldl_cons] at h
+    by_cases h1 : c = [] ∨ c = dot
+    · simp only [PathSpec.step, h1, if_true] at h
+      intro x hx
+      rcases ih s h x hx with h' | h'
+      · exact Or.inl h'
+      · exact Or.inr (List.mem_cons_of_mem _ h')
+    · by_cases h3 : c = dotdot
+      · subst h3
+        have e1 : ¬ (dotdot = [] ∨ dotdot = dot) := by decide
+        by_cases h4 : s = []
+        · simp [PathSpec.step, e1, h4, foldl_step_none] at h
+        · simp only [PathSpec.step, e1, h4, if_true, if_false] at h
+          intro x hx
+          rcases ih _ h x hx with h' | h'
+          · exact Or.inl (List.dropLast_subset _ h')
+          · exact Or.inr (List.mem_cons_of_mem _ h')
+      · simp only [PathSpec.step, h1, h3, if_false] at h
+        intro x hx
+        rcases ih _ h x hx with h' | h'
+        · simp only [List.mem_append, List.mem_singleton] at h'
+          rcases h' with h' | rfl
+          · exact Or.inl h'
+          · exact Or.inr (by simp)
+        · exact Or.inr (List.mem_cons_of_mem _ h')
+
+theorem iteratepath_resolve (p : Str) (cs : List Str) (h : iteratepath p = .ok cs) :
+    resolve (splitSlash p) = some cs := by
+  unfold iteratepath at h
+  rw [normpath_eq_specNorm, specNorm] at h
+  cases hr : resolve (splitSlash p) with
+  | none => rw [hr] at h; cases h
+  | some r =>
+    rw [hr] at h
+    have hc := resolve_result_clean p r hr
+    simp only [bind_ok] at h
+    change (if relpath (mkp (startsWithSlash p) r) == [] then pure [] else
+      pure (splitSlash (relpath (mkp (startsWithSlash p) r)))) = Res.ok cs at h
+    simp only [relpath, lstripSlash_mkp hc, pure_eq] at h
+    by_cases hn : r = []
+    · subst hn
+      simp [joinWith] at h
+      rw [h]
+    · have : joinWith '/' r ≠ [] := fun e => hn ((join_clean_eq_nil_iff hc).1 e)
+      simp [this, splitSlash, splitOn_join_clean hc hn] at h
+      rw [h]
+
+theorem validate_clean (p : Str) (cs : List Name) (h : validate p = .ok cs) :
+    ∀ c ∈ cs, cleanName c = true := by
+  unfold validate at h
+  split at h
+  · cases h
+  · next h0 =>
+    have hr := iteratepath_resolve p cs h
+    have hc := resolve_result_clean p cs hr
+    intro c hc'
+    obtain ⟨h1, h2, h3, h4⟩ := hc c hc'
+    have h5 : '\x00' ∉ c := by
+      intro hm
+      rcases foldl_step_mem _ _ _ hr c hc' with h' | h'
+      · cases h'
+      · exact h0 (by simpa using mem_of_mem_splitOn '/' p c h' _ hm)
+    simp only [dot, dotdot] at h2 h3
+    simp [cleanName, h1, h2, h3, h4, h5]
+
+end Validate
+
+/-! ### the shape of `step` -/
+
+theorem mapM_one (p : Str) : [p].mapM validate = (match validate p with | .ok cs => .ok [cs] | .err e => .err e) := by
+  cases h : validate p <;> simp [List.mapM, List.mapM.loop, h] <;> rfl
+
+theorem mapM_two (p q : Str) : [p, q].mapM validate =
+    (match validate p with
+     | .err e => .err e
+     | .ok a => match validate q with | .ok b => .ok [a, b] | .err e => .err e) := by
+  cases h : validate p <;> cases h' : validate q <;> simp [List.mapM, List.mapM.loop, h, h'] <;> rfl
+
+inductive StepCase (s : State) (op : Op) : Prop
+  | close : op = .close → step s op = ({ s with closed := true }, .ok .unit) → StepCase s op
+  | fail (e : Err) : op ≠ .close → step s op = (s, .err e) → StepCase s op
+  | one (p : Str) (cs : List Name) : s.closed = false → op.paths = [p] → validate p = .ok cs →
+      step s op = step1 s cs op → StepCase s op
+  | two (p q : Str) (a b : List Name) : s.closed = false → op.paths = [p, q] → validate p = .ok a →
+      validate q = .ok b → step s op = step2 s a b op → StepCase s op
+
+local macro "one_tac" p:ident hc:ident : tactic => `(tactic|
+  (cases hv : validate $p with
+   | err e => exact .fail e (by simp) (by simp [step, $hc:ident, Op.paths, mapM_one, hv, Ref.fail])
+   | ok cs => exact .one $p cs $hc rfl hv (by simp [step, $hc:ident, Op.paths, mapM_one, hv])))
+
+local macro "two_tac" p:ident q:ident hc:ident : tactic => `(tactic|
+  (cases hv : validate $p with
+   | err e => exact .fail e (by simp) (by simp [step, $hc:ident, Op.paths, mapM_two, hv, Ref.fail])
+   | ok a =>
+     cases hw : validate $q with
+     | err e => exact .fail e (by simp) (by simp [step, $hc:ident, Op.paths, mapM_two, hv, hw, Ref.fail])
+     | ok b => exact .two $p $q a b $hc rfl hv hw (by simp [step, $hc:ident, Op.paths, mapM_two, hv, hw])))
+
+theorem step_case (s : State) (op : Op) : StepCase s op := by
+  by_cases hc : s.closed = true
+  · cases op <;> first
+      | exact .close rfl rfl
+      | exact .fail .FilesystemClosed (by simp) (by simp [step, hc, Ref.fail])
+  · simp only [Bool.not_eq_true] at hc
+    cases op with
+    | close => exact .close rfl rfl
+    | openbin p m =>
+      by_cases hm : (parseBinMode m).isNone = true
+      · exact .fail .ValueError (by simp) (by simp [step, hc, hm, Ref.fail])
+      · cases hv : validate p with
+        | err e => exact .fail e (by simp) (by simp [step, hc, hm, Op.paths, mapM_one, hv, Ref.fail])
+        | ok cs => exact .one p cs hc rfl hv (by simp [step, hc, hm, Op.paths, mapM_one, hv])
+    | move p q o => two_tac p q hc
+    | copy p q o => two_tac p q hc
+    | movedir p q o => two_tac p q hc
+    | copydir p q o => two_tac p q hc
+    | exists_ p => one_tac p hc
+    | isdir p => one_tac p hc
+    | isfile p => one_tac p hc
+    | listdir p => one_tac p hc
+    | getsize p => one_tac p hc
+    | gettype p => one_tac p hc
+    | isempty p => one_tac p hc
+    | getinfo p => one_tac p hc
+    | readbytes p => one_tac p hc
+    | makedir p r => one_tac p hc
+    | makedirs p r => one_tac p hc
+    | writebytes p d => one_tac p hc
+    | appendbytes p d => one_tac p hc
+    | create p w => one_tac p hc
+    | touch p => one_tac p hc
+    | settimes p => one_tac p hc
+    | remove p => one_tac p hc
+    | removedir p => one_tac p hc
+    | removetree p => one_tac p hc
+
+/-- operations that (over)write one file -/
+def isWrite : Op → Prop
+  | .writebytes _ _ | .appendbytes _ _ | .create _ _ | .touch _ | .openbin _ _ => True
+  | _ => False
+
+/-- every possible effect of a one-path operation on the state -/
+inductive Eff1 (s : State) (cs : List Name) (op : Op) : State × Out → Prop
+  | same (o : Out) : Eff1 s cs op (s, o)
+  | setFile (b : Bytes) (v : Val) (es : Ents) : cs ≠ [] → s.root.get cs.dropLast = some (.dir es) →
+      (∀ ds, s.root.get cs ≠ some (.dir ds)) → isWrite op →
+      Eff1 s cs op (upd s (s.root.set cs (.file b)) v)
+  | mkdir (es : Ents) : cs ≠ [] → s.root.get cs.dropLast = some (.dir es) → s.root.get cs = none →
+      (∃ p r, op = .makedir p r) → Eff1 s cs op (upd s (s.root.set cs (.dir [])))
+  | mkdirs : s.root.get cs = none → blockedByFile s.root [] cs = false →
+      (∃ p r, op = .makedirs p r) → Eff1 s cs op (upd s (mkdirs [] cs s.root))
+  | delFile (b : Bytes) : cs ≠ [] → s.root.get cs = some (.file b) → (∃ p, op = .remove p) →
+      Eff1 s cs op (upd s (s.root.del cs))
+  | delEmpty : cs ≠ [] → s.root.get cs = some (.dir []) → (∃ p, op = .removedir p) →
+      Eff1 s cs op (upd s (s.root.del cs))
+  | delTree (es : Ents) : cs ≠ [] → s.root.get cs = some (.dir es) → (∃ p, op = .removetree p) →
+      Eff1 s cs op (upd s (s.root.del cs))
+  | clear : cs = [] → (∃ p, op = .removetree p) → Eff1 s cs op (upd s (.dir []))
+
+theorem eff_writeFile (s : State) (cs : List Name) (op : Op) (f : Option Bytes → Bytes) (v : Val)
+    (hw : isWrite op) : Eff1 s cs op (writeFile s cs f v) := by
+  unfold writeFile
+  simp only [parentOf]
+  split
+  · exact .same _
+  · next hne =>
+    split
+    · exact .same _
+    · exact .same _
+    · next es hp =>
+      split
+      · exact .same _
+      · next b hb => exact .setFile _ _ es hne hp (by simp [hb]) hw
+      · next hb => exact .setFile _ _ es hne hp (by simp [hb]) hw
+
+theorem eff1 (s : State) (cs : List Name) (op : Op) : Eff1 s cs op (step1 s cs op) := by
+  cases op with
+  | writebytes p d => simp only [step1]; exact eff_writeFile s cs (.writebytes p d) _ _ trivial
+  | appendbytes p d => simp only [step1]; exact eff_writeFile s cs (.appendbytes p d) _ _ trivial
+  | create p w =>
+    simp only [step1]; split
+    · exact .same _
+    · exact eff_writeFile _ _ _ _ _ (by trivial)
+  | touch p =>
+    simp only [step1]; split
+    · exact .same _
+    · exact eff_writeFile _ _ _ _ _ (by trivial)
+  | openbin p m =>
+    simp only [step1, parentOf]
+    split
+    · exact .same _
+    · split
+      · exact .same _
+      · next hne =>
+        split
+        · exact .same _
+        · exact .same _
+        · next es hp =>
+          split
+          · exact .same _
+          · next b hb =>
+            split
+            · exact .same _
+            · split
+              · exact .setFile _ _ es hne hp (by simp [hb]) trivial
+              · exact .same _
+          · next hb =>
+            split
+            · exact .setFile _ _ es hne hp (by simp [hb]) trivial
+            · exact .same _
+  | makedir p r =>
+    simp only [step1, parentOf]
+    split
+    · split <;> exact .same _
+    · next hne =>
+      split
+      · exact .same _
+      · exact .same _
+      · next es hp =>
+        split
+        · split <;> exact .same _
+        · split <;> exact .same _
+        · next hb => exact .mkdir es hne hp hb ⟨_, _, rfl⟩
+  | makedirs p r =>
+    simp only [step1]
+    split
+    · exact .same _
+    · next hbl =>
+      split
+      · split <;> exact .same _
+      · split <;> exact .same _
+      · next hb => exact .mkdirs hb (by simpa using hbl) ⟨_, _, rfl⟩
+  | remove p =>
+    simp only [step1]
+    split
+    · exact .same _
+    · next hne =>
+      split
+      · exact .same _
+      · exact .same _
+      · next b hb => exact .delFile b hne hb ⟨_, rfl⟩
+  | removedir p =>
+    simp only [step1]
+    split
+    · exact .same _
+    · next hne =>
+      split
+      · exact .same _
+      · exact .same _
+      · next es hb =>
+        split
+        · next he =>
+          have : es = [] := by simpa using he
+          subst this
+          exact .delEmpty hne hb ⟨_, rfl⟩
+        · exact .same _
+  | removetree p =>
+    simp only [step1]
+    split
+    · next he => exact .clear he ⟨_, rfl⟩
+    · next hne =>
+      split
+      · exact .same _
+      · exact .same _
+      · next es hb => exact .delTree es hne hb ⟨_, rfl⟩
+  | _ => simp only [step1] <;> (repeat' split) <;> exact .same _
+
+/-- every possible effect of a two-path operation on the state -/
+inductive Eff2 (st : State) (a b : List Name) (op : Op) : State × Out → Prop
+  | fail (e : Err) : Eff2 st a b op (st, .err e)
+  | noop (v : Val) : ((∃ p q c, op = .move p q c ∨ op = .copy p q c ∨ op = .movedir p q c ∨
+      op = .copydir p q c) → a = b) → Eff2 st a b op (st, .ok v)
+  | move (data : Bytes) (ps : Ents) : st.root.get a = some (.file data) → a ≠ b → b ≠ [] →
+      st.root.get b.dropLast = some (.dir ps) → (∀ ds, st.root.get b ≠ some (.dir ds)) →
+      (∃ p q o, op = .move p q o) →
+      Eff2 st a b op (upd st ((st.root.set b (.file data)).del a))
+  | copy (data : Bytes) (ps : Ents) : st.root.get a = some (.file data) → a ≠ b → b ≠ [] →
+      st.root.get b.dropLast = some (.dir ps) → (∀ ds, st.root.get b ≠ some (.dir ds)) →
+      (∃ p q o, op = .copy p q o) →
+      Eff2 st a b op (upd st (st.root.set b (.file data)))
+  | movedirMerge (es ds0 ds m : Ents) : a ≠ b → isPrefix a b = false →
+      st.root.get a = some (.dir es) → st.root.get b = some (.dir ds0) →
+      (st.root.del a).get b = some (.dir ds) → mergeEnts es ds = some m →
+      (∃ p q c, op = .movedir p q c) →
+      Eff2 st a b op (upd st (setAt (st.root.del a) b (.dir m)))
+  | movedirNew (es ps : Ents) : a ≠ b → isPrefix a b = false →
+      st.root.get a = some (.dir es) → st.root.get b = none →
+      st.root.get b.dropLast = some (.dir ps) → (∃ p q c, op = .movedir p q c) →
+      Eff2 st a b op (upd st ((st.root.set b (.dir es)).del a))
+  | copydirMerge (es ds m : Ents) : isPrefix a b = false →
+      st.root.get a = some (.dir es) → st.root.get b = some (.dir ds) →
+      mergeEnts es ds = some m → (∃ p q c, op = .copydir p q c) →
+      Eff2 st a b op (upd st (setAt st.root b (.dir m)))
+  | copydirNew (es : Ents) : isPrefix a b = false →
+      st.root.get a = some (.dir es) → st.root.get b = none →
+      blockedByFile st.root [] b = false → (∃ p q c, op = .copydir p q c) →
+      Eff2 st a b op (upd st ((mkdirs [] b st.root).set b (.dir es)))
+
+theorem eff2 (st : State) (a b : List Name) (op : Op) : Eff2 st a b op (step2 st a b op) := by
+  cases op with
+  | move p q o =>
+    simp only [step2, parentOf]
+    split
+    · first | exact .fail _ | exact .noop _ (fun _ => by assumption)
+    · first | exact .fail _ | exact .noop _ (fun _ => by assumption)
+    · next data ha =>
+      split
+      · first | exact .fail _ | exact .noop _ (fun _ => by assumption)
+      · split
+        · first | exact .fail _ | exact .noop _ (fun _ => by assumption)
+        · next hab =>
+          split
+          · first | exact .fail _ | exact .noop _ (fun _ => by assumption)
+          · next hb =>
+            split
+            · first | exact .fail _ | exact .noop _ (fun _ => by assumption)
+            · first | exact .fail _ | exact .noop _ (fun _ => by assumption)
+            · next ps hp =>
+              split
+              · first | exact .fail _ | exact .noop _ (fun _ => by assumption)
+              · next hnd =>
+                exact .move data ps ha hab hb hp (fun ds h => hnd ds h) ⟨_, _, _, rfl⟩
+  | copy p q o =>
+    simp only [step2, parentOf]
+    split
+    · first | exact .fail _ | exact .noop _ (fun _ => by assumption)
+    · split
+      · first | exact .fail _ | exact .noop _ (fun _ => by assumption)
+      · next hab =>
+        split
+        · first | exact .fail _ | exact .noop _ (fun _ => by assumption)
+        · first | exact .fail _ | exact .noop _ (fun _ => by assumption)
+        · next data ha =>
+          split
+          · first | exact .fail _ | exact .noop _ (fun _ => by assumption)
+          · next hb =>
+            split
+            · first | exact .fail _ | exact .noop _ (fun _ => by assumption)
+            · first | exact .fail _ | exact .noop _ (fun _ => by assumption)
+            · next ps hp =>
+              split
+              · first | exact .fail _ | exact .noop _ (fun _ => by assumption)
+              · next hnd =>
+                exact .copy data ps ha hab hb hp (fun ds h => hnd ds h) ⟨_, _, _, rfl⟩
+  | movedir p q c =>
+    simp only [step2, parentOf]
+    split
+    · first | exact .fail _ | exact .noop _ (fun _ => by assumption)
+    · next hab =>
+      split
+      · first | exact .fail _ | exact .noop _ (fun _ => by assumption)
+      · next hpre =>
+        have hpre' : isPrefix a b = false := by simpa using hpre
+        split
+        · first | exact .fail _ | exact .noop _ (fun _ => by assumption)
+        · first | exact .fail _ | exact .noop _ (fun _ => by assumption)
+        · next es ha =>
+          split
+          · first | exact .fail _ | exact .noop _ (fun _ => by assumption)
+          · next ds0 hb0 =>
+            split
+            · next ds hb =>
+              split
+              · first | exact .fail _ | exact .noop _ (fun _ => by assumption)
+              · next m hm => exact .movedirMerge es ds0 ds m hab hpre' ha hb0 hb hm ⟨_, _, _, rfl⟩
+            · first | exact .fail _ | exact .noop _ (fun _ => by assumption)
+          · next hbn =>
+            split
+            · first | exact .fail _ | exact .noop _ (fun _ => by assumption)
+            · split
+              · next ps hp => exact .movedirNew es ps hab hpre' ha hbn hp ⟨_, _, _, rfl⟩
+              · first | exact .fail _ | exact .noop _ (fun _ => by assumption)
+  | copydir p q c =>
+    simp only [step2]
+    split
+    · first | exact .fail _ | exact .noop _ (fun _ => by assumption)
+    · next hpre =>
+      have hpre' : isPrefix a b = false := by simpa using hpre
+      split
+      · split <;> first | exact .fail _ | exact .noop _ (fun _ => by assumption)
+      · next ds hb =>
+        split
+        · first | exact .fail _ | exact .noop _ (fun _ => by assumption)
+        · first | exact .fail _ | exact .noop _ (fun _ => by assumption)
+        · next es ha =>
+          split
+          · first | exact .fail _ | exact .noop _ (fun _ => by assumption)
+          · next m hm => exact .copydirMerge es ds m hpre' ha hb hm ⟨_, _, _, rfl⟩
+      · next hbn =>
+        split
+        · first | exact .fail _ | exact .noop _ (fun _ => by assumption)
+        · split
+          · first | exact .fail _ | exact .noop _ (fun _ => by assumption)
+          · first | exact .fail _ | exact .noop _ (fun _ => by assumption)
+          · next es ha =>
+            split
+            · first | exact .fail _ | exact .noop _ (fun _ => by assumption)
+            · next hbl => exact .copydirNew es hpre' ha hbn (by simpa using hbl) ⟨_, _, _, rfl⟩
+  | _ => simp only [step2] <;> exact .noop _ (by simp)
+
+/-! ### invariants of the effects -/
+
+theorem isDir_setAt (t : Node) (b : List Name) (m : Ents) : (setAt t b (.dir m)).isDir = t.isDir ∨
+    (setAt t b (.dir m)).isDir = true := by
+  unfold setAt; split
+  · exact Or.inr rfl
+  · exact Or.inl (isDir_set _ _ _)
+
+theorem eff1_isDir {s : State} {cs : List Name} {op : Op} {r : State × Out} (h : Eff1 s cs op r)
+    (hd : s.root.isDir = true) : r.1.root.isDir = true := by
+  cases h with
+  | clear => rfl
+  | _ => simp [upd, isDir_set, isDir_del, isDir_mkdirs, hd]
+
+theorem eff2_isDir {s : State} {a b : List Name} {op : Op} {r : State × Out} (h : Eff2 s a b op r)
+    (hd : s.root.isDir = true) : r.1.root.isDir = true := by
+  cases h with
+  | movedirMerge es ds0 ds m =>
+    simp only [upd]
+    rcases isDir_setAt (s.root.del a) b m with h | h
+    · rw [h, isDir_del]; exact hd
+    · exact h
+  | copydirMerge es ds m =>
+    simp only [upd]
+    rcases isDir_setAt s.root b m with h | h
+    · rw [h]; exact hd
+    · exact h
+  | _ => simp [upd, isDir_set, isDir_del, isDir_mkdirs, hd]
+
+theorem setAt_wf (t : Node) (b : List Name) (m : Ents) (hb : ∀ c ∈ b, cleanName c = true)
+    (ht : t.wf = true) (hm : entsWf m = true) : (setAt t b (.dir m)).wf = true := by
+  unfold setAt; split
+  · simpa [Node.wf] using hm
+  · exact set_wf _ _ _ hb (by simpa [Node.wf] using hm) ht
+
+theorem eff1_wf {s : State} {cs : List Name} {op : Op} {r : State × Out} (h : Eff1 s cs op r)
+    (hc : ∀ c ∈ cs, cleanName c = true) (hw : s.root.wf = true) : r.1.root.wf = true := by
+  cases h with
+  | same o => exact hw
+  | setFile b v es => exact set_wf _ _ _ hc rfl hw
+  | mkdir es => exact set_wf _ _ _ hc rfl hw
+  | mkdirs => exact mkdirs_wf _ _ _ (by simpa using hc) hw
+  | delFile b => exact del_wf _ _ hw
+  | delEmpty => exact del_wf _ _ hw
+  | delTree es => exact del_wf _ _ hw
+  | clear => rfl
+
+theorem eff2_wf {s : State} {a b : List Name} {op : Op} {r : State × Out} (h : Eff2 s a b op r)
+    (hb : ∀ c ∈ b, cleanName c = true) (hw : s.root.wf = true) : r.1.root.wf = true := by
+  cases h with
+  | fail e => exact hw
+  | noop v _ => exact hw
+  | move data ps => exact del_wf _ _ (set_wf _ _ _ hb rfl hw)
+  | copy data ps => exact set_wf _ _ _ hb rfl hw
+  | movedirMerge es ds0 ds m _ _ ha _ hd hm =>
+    have h1 := del_wf a _ hw
+    have hes : entsWf es = true := by simpa [Node.wf] using get_wf _ _ _ hw ha
+    have hds : entsWf ds = true := by simpa [Node.wf] using get_wf _ _ _ h1 hd
+    exact setAt_wf _ _ _ hb h1 (mergeEnts_wf _ _ _ hes hds hm)
+  | movedirNew es ps _ _ ha =>
+    have hes : (Node.dir es).wf = true := get_wf _ _ _ hw ha
+    exact del_wf _ _ (set_wf _ _ _ hb hes hw)
+  | copydirMerge es ds m _ ha hd hm =>
+    have hes : entsWf es = true := by simpa [Node.wf] using get_wf _ _ _ hw ha
+    have hds : entsWf ds = true := by simpa [Node.wf] using get_wf _ _ _ hw hd
+    exact setAt_wf _ _ _ hb hw (mergeEnts_wf _ _ _ hes hds hm)
+  | copydirNew es _ ha =>
+    have hes : (Node.dir es).wf = true := get_wf _ _ _ hw ha
+    exact set_wf _ _ _ hb hes (mkdirs_wf _ _ _ (by simpa using hb) hw)
+
+/-! ### frame -/
+
+/-- the component paths a one-path operation may change -/
+def touch1 (op : Op) (cs q : List Name) : Prop :=
+  match op with
+  | .removetree _ => cs <+: q
+  | .remove _ | .removedir _ | .writebytes _ _ | .appendbytes _ _ | .create _ _ | .touch _
+  | .openbin _ _ | .makedir _ _ => q = cs
+  | _ => False
+
+/-- the component paths a two-path operation may change -/
+def touch2 (op : Op) (a b q : List Name) : Prop :=
+  match op with
+  | .move _ _ _ => q = a ∨ q = b
+  | .copy _ _ _ => q = b
+  | .movedir _ _ _ => a <+: q ∨ b <+: q
+  | .copydir _ _ _ => b <+: q
+  | _ => False
+
+theorem touch1_write {op : Op} (h : isWrite op) (cs q : List Name) : touch1 op cs q ↔ q = cs := by
+  cases op <;> simp [isWrite] at h <;> simp [touch1]
+
+/-- a file cannot sit strictly below a path that is not a directory -/
+theorem not_prefix_of_not_dir {t : Node} {cs q : List Name} {b : Bytes}
+    (hq : t.get q = some (.file b)) (hne : q ≠ cs) (hnd : ∀ ds, t.get cs ≠ some (.dir ds)) :
+    ¬ cs <+: q := by
+  intro hp
+  obtain ⟨es, he⟩ := get_proper_prefix_dir hp (Ne.symm hne) hq
+  exact hnd es he
+
+theorem eff1_frame {s : State} {cs : List Name} {op : Op} {r : State × Out} (h : Eff1 s cs op r)
+    (q : List Name) (b : Bytes) (hq : s.root.get q = some (.file b)) (hn : ¬ touch1 op cs q) :
+    r.1.root.get q = some (.file b) := by
+  cases h with
+  | same o => exact hq
+  | setFile b' v es hne hp hnd hw =>
+    rw [touch1_write hw] at hn
+    exact get_set_file _ _ _ _ _ hq (not_prefix_of_not_dir hq hn hnd)
+  | mkdir es hne hp hnone hop =>
+    obtain ⟨p, r, rfl⟩ := hop
+    simp only [touch1] at hn
+    exact get_set_file _ _ _ _ _ hq (not_prefix_of_not_dir hq hn (by simp [hnone]))
+  | mkdirs => exact mkdirs_file _ _ _ _ _ hq
+  | delFile b' hne hb hop =>
+    obtain ⟨p, rfl⟩ := hop
+    simp only [touch1] at hn
+    exact get_del_file _ _ _ _ hq (not_prefix_of_not_dir hq hn (by simp [hb]))
+  | delEmpty hne hb hop =>
+    obtain ⟨p, rfl⟩ := hop
+    simp only [touch1] at hn
+    refine get_del_file _ _ _ _ hq ?_
+    intro hp
+    obtain ⟨c, r, rfl⟩ := prefix_ne_split hp (Ne.symm hn)
+    rw [get_append, hb] at hq
+    simp [Node.get, Ents.lookup] at hq
+  | delTree es hne hb hop =>
+    obtain ⟨p, rfl⟩ := hop
+    simp only [touch1] at hn
+    exact get_del_file _ _ _ _ hq hn
+  | clear he hop =>
+    obtain ⟨p, rfl⟩ := hop
+    subst he
+    exact absurd List.nil_prefix hn
+
+theorem get_setAt_file (t : Node) (bp q : List Name) (m : Ents) (b : Bytes)
+    (hq : t.get q = some (.file b)) (hn : ¬ bp <+: q) :
+    (setAt t bp (.dir m)).get q = some (.file b) := by
+  unfold setAt; split
+  · next h => subst h; exact absurd List.nil_prefix hn
+  · exact get_set_file _ _ _ _ _ hq hn
+
+theorem eff2_frame {s : State} {a bp : List Name} {op : Op} {r : State × Out}
+    (h : Eff2 s a bp op r) (q : List Name) (b : Bytes) (hq : s.root.get q = some (.file b))
+    (hn : ¬ touch2 op a bp q) : r.1.root.get q = some (.file b) := by
+  cases h with
+  | fail e => exact hq
+  | noop v _ => exact hq
+  | move data ps ha hab hb hp hnd hop =>
+    obtain ⟨p, q', o, rfl⟩ := hop
+    simp only [touch2, not_or] at hn
+    have h1 := get_set_file bp q s.root (.file data) b hq (not_prefix_of_not_dir hq hn.2 hnd)
+    exact get_del_file _ _ _ _ h1 (not_prefix_of_not_dir hq hn.1 (by simp [ha]))
+  | copy data ps ha hab hb hp hnd hop =>
+    obtain ⟨p, q', o, rfl⟩ := hop
+    simp only [touch2] at hn
+    exact get_set_file bp q s.root (.file data) b hq (not_prefix_of_not_dir hq hn hnd)
+  | movedirMerge es ds0 ds m _ _ ha _ hd hm hop =>
+    obtain ⟨p, q', o, rfl⟩ := hop
+    simp only [touch2, not_or] at hn
+    exact get_setAt_file _ _ _ _ _ (get_del_file _ _ _ _ hq hn.1) hn.2
+  | movedirNew es ps _ _ ha _ _ hop =>
+    obtain ⟨p, q', o, rfl⟩ := hop
+    simp only [touch2, not_or] at hn
+    exact get_del_file _ _ _ _ (get_set_file _ _ _ _ _ hq hn.2) hn.1
+  | copydirMerge es ds m _ ha hd hm hop =>
+    obtain ⟨p, q', o, rfl⟩ := hop
+    simp only [touch2] at hn
+    exact get_setAt_file _ _ _ _ _ hq hn
+  | copydirNew es _ ha _ _ hop =>
+    obtain ⟨p, q', o, rfl⟩ := hop
+    simp only [touch2] at hn
+    exact get_set_file _ _ _ _ _ (mkdirs_file _ _ _ _ _ hq) hn
+
+theorem eff1_err {s : State} {cs : List Name} {op : Op} {r : State × Out} (h : Eff1 s cs op r)
+    (e : Err) (he : r.2 = .err e) : r.1 = s := by
+  cases h <;> simp_all [upd]
+
+theorem eff2_err {s : State} {a b : List Name} {op : Op} {r : State × Out} (h : Eff2 s a b op r)
+    (e : Err) (he : r.2 = .err e) : r.1 = s := by
+  cases h <;> simp_all [upd]
+
+/-- a call that returned went through the operation proper -/
+theorem step_two_ok {st : State} {op : Op} {p q : Str} {a b : List Name} {v : Val}
+    (hp : op.paths = [p, q]) (ha : validate p = .ok a) (hb : validate q = .ok b)
+    (hok : (step st op).2 = .ok v) : step st op = step2 st a b op := by
+  cases step_case st op with
+  | close h _ => subst h; simp [Op.paths] at hp
+  | fail e _ h => rw [h] at hok; cases hok
+  | one p' cs _ hp' _ _ => rw [hp] at hp'; simp at hp'
+  | two p' q' a' b' _ hp' ha' hb' h =>
+    rw [hp] at hp'
+    simp only [List.cons.injEq, and_true] at hp'
+    obtain ⟨rfl, rfl⟩ := hp'
+    rw [ha] at ha'; rw [hb] at hb'
+    cases ha'; cases hb'
+    exact h
+
+theorem step_one_ok {st : State} {op : Op} {p : Str} {a : List Name} {v : Val}
+    (hp : op.paths = [p]) (ha : validate p = .ok a)
+    (hok : (step st op).2 = .ok v) : step st op = step1 st a op := by
+  cases step_case st op with
+  | close h _ => subst h; simp [Op.paths] at hp
+  | fail e _ h => rw [h] at hok; cases hok
+  | one p' cs _ hp' ha' h =>
+    rw [hp] at hp'
+    simp only [List.cons.injEq, and_true] at hp'
+    subst hp'
+    rw [ha] at ha'
+    cases ha'
+    exact h
+  | two p' q' a' b' _ hp' _ _ _ => rw [hp] at hp'; simp at hp'
+
+/-! ### bulk copies -/
+
+theorem get_setAt_append (t : Node) (b r : List Name) (m ds : Ents)
+    (hb : t.get b = some (.dir ds)) : (setAt t b (.dir m)).get (b ++ r) = (Node.dir m).get r := by
+  unfold setAt; split
+  · next h => subst h; rfl
+  · next h =>
+    obtain ⟨ps, hp⟩ := get_parent_dir h hb
+    exact get_set_append b r t _ ps h hp
+
+/-- a file below the source directory, read relative to the source -/
+theorem get_rel {t : Node} {a r : List Name} {es : Ents} {data : Bytes}
+    (ha : t.get a = some (.dir es)) (hf : t.get (a ++ r) = some (.file data)) :
+    (Node.dir es).get r = some (.file data) := by
+  rw [get_append, ha] at hf; exact hf
+
+/-- two prefixes of one path are comparable -/
+theorem not_prefix_append {a b r : List Name} (h1 : ¬ a <+: b) (h2 : ¬ b <+: a) :
+    ¬ b <+: a ++ r := by
+  intro h
+  rcases List.prefix_or_prefix_of_prefix (List.prefix_append a r) h with h | h
+  · exact h1 h
+  · exact h2 h
+
+theorem root_dir_of_not_blocked {t : Node} {b : List Name} (hne : b ≠ [])
+    (h : blockedByFile t [] b = false) : ∃ es, t.get [] = some (.dir es) := by
+  cases b with
+  | nil => exact absurd rfl hne
+  | cons c cs =>
+    cases t with
+    | dir es => exact ⟨es, rfl⟩
+    | file d => simp [blockedByFile, Node.get] at h
 
 end Fs.TreeLemmas
